@@ -414,7 +414,8 @@ pub fn gen_srv_case(rng: &mut Rng, profile: Profile, prop: &'static str) -> SrvC
             6 => SStep::Flush,
             7 => {
                 let c = *rng.pick(&hostiles);
-                match rng.weighted(&[50, 20, 20, 10, 6]) {
+                match rng.weighted(&[50, 20, 20, 10, 6, 8]) {
+                    5 => SStep::PassFds(c, rng.range(1, 3)),
                     0 => SStep::Close(c),
                     1 => SStep::ShutRd(c),
                     2 => SStep::ShutWr(c),
